@@ -30,24 +30,10 @@ Definition AA (k : nat) (x y : R) : R := BB k x y (rr x y).
 Fixpoint PA (c : list R) (k0 : nat) (x y : R) : R :=
   match c with [] => 0 | a :: c' => a * AA k0 x y + PA c' (S k0) x y end.
 
-(* ---- the code: one-sided integral a(k), lines 190-207 ---- *)
-(* C[2i] for given k: C[0] = 1/(k+1), C[k-m+2] = C[k-m]*m/(m-1), m = k - 2i *)
-Fixpoint Ccoef (k i : nat) : R :=
-  match i with
-  | O => / INR (k + 1)
-  | S i' => Ccoef k i' * INR (k - 2 * i') / INR (k - 2 * i' - 1)
-  end.
-
-(* Horner in x2 = x^2; D p = Dyr[p]; dln = Dlnry.  n = remaining steps,
-   i = current index of C (C[2i]); the innermost (first computed) term carries
-   the logarithm for odd k. *)
-Fixpoint hor (k : nat) (od : bool) (x2 : R) (D : nat -> R) (dln : R) (n i : nat) : R :=
-  match n with
-  | O => Ccoef k i * D (k - 2 * i)%nat + (if od then Ccoef k i * x2 * dln else 0)
-  | S n' => Ccoef k i * D (k - 2 * i)%nat + x2 * hor k od x2 D dln n' (S i)
-  end.
-Definition a_gen (k : nat) (x2 : R) (D : nat -> R) (dln : R) : R :=
-  hor k (Nat.odd k) x2 D dln (k / 2) 0.
+(* ---- the code: one-sided integral a(k), lines 190-207: R instance of
+   Poly.a_gen ---- *)
+Definition a_genR := a_gen R 0 1 Rplus Rmult Rdiv.
+Definition abel_sumR := abel_sum R 0 1 Rplus Rmult.
 
 (* lines 173-187 with Coq's sqrt (0 for arguments <= 0) and ln (0 for
    arguments <= 0) standing for the where-guarded numpy calls *)
@@ -55,14 +41,11 @@ Definition Dyr (rmin rmax yup ylo : R) (p : nat) : R := rmax ^ p * yup - rmin ^ 
 Definition a_code (k : nat) (x rmin rmax : R) : R :=
   let yup := sqrt (rmax * rmax - x * x) in
   let ylo := sqrt (rmin * rmin - x * x) in
-  a_gen k (x * x) (Dyr rmin rmax yup ylo)
+  a_genR k (x * x) (Dyr rmin rmax yup ylo)
         (ln (rmax + yup) - ln (Rmax rmin x + ylo)).
 
-(* lines 219-226: abel[i] = sum_k c[k] * 2 * a(k) for i < i_max *)
-Fixpoint abel_sum (c : list R) (k0 : nat) (ak : nat -> R) : R :=
-  match c with [] => 0 | a :: c' => a * 2 * ak k0 + abel_sum c' (S k0) ak end.
 Definition abel_pt (c : list R) (sc x rmin rmax : R) : R :=
-  abel_sum (map (Rmult sc) c) 0 (fun k => a_code k x rmin rmax).
+  abel_sumR (map (Rmult sc) c) 0 (fun k => a_code k x rmin rmax).
 
 (* R instance of the preparation *)
 Definition Reqb (a b : R) : bool := if Req_EM_T a b then true else false.
@@ -85,21 +68,45 @@ Definition poly_abelR (r : list R) (rmin rmax : R) (c : list R) (r0 s : R) (redu
 Definition polyfun (rmin rmax : R) (c : list R) (r0 s : R) (r : R) : R :=
   if Rle_dec (Rmax rmin 0) r then if Rlt_dec r rmax then pevalR c ((r - r0) / s) else 0 else 0.
 
-(* ---- evaluation form on rational inputs (decisions made in Q), used by the
-   correspondence check; proved equal to the model in proofs/AbelPolyEval.v ---- *)
-Definition sqrt0Q (z : Q) : R := if Qlt_le_dec 0 z then sqrt (Q2R z) else 0.
-Definition Qmax (a b : Q) : Q := if Qlt_le_dec a b then b else a.
-Definition a_codeQ (k : nat) (x rmin rmax : Q) : R :=
-  let yup := sqrt0Q (rmax * rmax - x * x) in
-  let ylo := sqrt0Q (rmin * rmin - x * x) in
+(* ---- evaluation form on rational inputs (all decisions and all rational
+   arithmetic done in Q by vm_compute; the model is linear in y_up, y_lo and
+   Dlnry), used by the correspondence check; proved equal to abel_pt in
+   proofs/AbelPolyEval.v ---- *)
+Record abel_data := {
+  d_al : Q; d_be : Q; d_ga : Q;          (* coefficients of y_up, y_lo, Dlnry *)
+  d_zup : Q; d_bup : bool;               (* r_max^2 - x^2 and whether it is > 0 *)
+  d_zlo : Q; d_blo : bool;               (* r_min^2 - x^2 and whether it is > 0 *)
+  d_m : Q; d_bm : bool;                  (* max(r_min, x) and whether it is > 0 *)
+  d_rmax : Q }.
+
+Definition Qmax (a b : Q) : Q := if Qltb a b then b else a.
+
+Definition abel_dataQ (c : list Q) (sc x rmin rmax : Q) : abel_data :=
+  let '(al, be, ga) := abel_linQ c sc x rmin rmax in
+  let zup := Qred (rmax * rmax - x * x) in
+  let zlo := Qred (rmin * rmin - x * x) in
   let m := Qmax rmin x in
-  a_gen k (Q2R (x * x)) (Dyr (Q2R rmin) (Q2R rmax) yup ylo)
-        (ln (Q2R rmax + yup) - (if Qlt_le_dec 0 m then ln (Q2R m + ylo) else 0)).
-Definition abel_ptQ (c : list Q) (sc x rmin rmax : Q) : R :=
-  abel_sum (map (fun a => Q2R (sc * a)) c) 0 (fun k => a_codeQ k x rmin rmax).
-Definition poly_abelQ_at (r : list Q) (rmin rmax : Q) (c : list Q) (r0 s : Q) (reduced : bool) (i : nat) : R :=
+  {| d_al := Qred al; d_be := Qred be; d_ga := Qred ga;
+     d_zup := zup; d_bup := Qltb 0 zup; d_zlo := zlo; d_blo := Qltb 0 zlo;
+     d_m := m; d_bm := Qltb 0 m; d_rmax := rmax |}.
+
+Definition abel_of_data (d : abel_data) : R :=
+  let yup := if d_bup d then sqrt (Q2R (d_zup d)) else 0 in
+  let ylo := if d_blo d then sqrt (Q2R (d_zlo d)) else 0 in
+  Q2R (d_al d) * yup + Q2R (d_be d) * ylo +
+  Q2R (d_ga d) * (ln (Q2R (d_rmax d) + yup) - (if d_bm d then ln (Q2R (d_m d) + ylo) else 0)).
+
+(* data of grid point i of Polynomial(r, rmin, rmax, c, r0, s, reduced).abel;
+   None where the code leaves abel[i] = 0 *)
+Definition poly_abel_dataQ (r : list Q) (rmin rmax : Q) (c : list Q) (r0 s : Q) (reduced : bool) (i : nat)
+  : option abel_data :=
   match prepareQ r rmin rmax c r0 s reduced with
-  | None => 0
+  | None => None
   | Some p => if (i <? p_imax p)%nat
-              then abel_ptQ (p_c p) (p_scale p) (nth i (p_r p) 0%Q) (p_rmin p) (p_rmax p) else 0
+              then Some (abel_dataQ (p_c p) (p_scale p) (nth i (p_r p) 0%Q) (p_rmin p) (p_rmax p))
+              else None
   end.
+Definition abel_of_opt (o : option abel_data) : R :=
+  match o with None => 0 | Some d => abel_of_data d end.
+Definition poly_abelQ_at r rmin rmax c r0 s reduced i : R :=
+  abel_of_opt (poly_abel_dataQ r rmin rmax c r0 s reduced i).
